@@ -549,10 +549,13 @@ class HashRule(ABC):
                     UndefinedSymbolHashRule(
                         ref,
                         parent_symbol=parent_symbol,
-                        symbol=parts[i],
+                        # The whole dotted name identifies the rule: the same attribute can be
+                        # missing on several objects (Left.scale, Right.scale)
+                        symbol=symbol_part + "." + parts[i],
                         first_level=first_level,
                         ref_is_global_table=False,
                         ref_resolver=resolver,
+                        attr_name=parts[i],
                     )
                 )
                 return
@@ -640,6 +643,9 @@ class UndefinedSymbolHashRule(HashRule):
     when the object on which the symbol was missing has been replaced by another one.
     """
 
+    attr_name = None  # type: str
+    """The name that is missing on ref: the last part of the symbol"""
+
     def __init__(
         self,
         ref: object,
@@ -648,6 +654,7 @@ class UndefinedSymbolHashRule(HashRule):
         first_level: bool,
         ref_is_global_table: bool,
         ref_resolver: Optional[Callable] = None,
+        attr_name: Optional[str] = None,
     ):
         # noinspection PyUnresolvedReferences
         super().__init__(
@@ -659,6 +666,7 @@ class UndefinedSymbolHashRule(HashRule):
         self.ref = ref
         self.ref_is_global_table = ref_is_global_table
         self.ref_resolver = ref_resolver
+        self.attr_name = attr_name if attr_name is not None else symbol
 
     def clone(self) -> HashRule:
         return UndefinedSymbolHashRule(
@@ -668,6 +676,7 @@ class UndefinedSymbolHashRule(HashRule):
             self.first_level,
             self.ref_is_global_table,
             self.ref_resolver,
+            self.attr_name,
         )
 
     def collect_transitive_dependencies(
@@ -687,10 +696,10 @@ class UndefinedSymbolHashRule(HashRule):
     def did_change(self) -> bool:
         # Considered changed if the symbol now points to something.
         if self.ref_is_global_table:
-            return self.symbol in self.ref
+            return self.attr_name in self.ref
 
         ref = self.ref_resolver() if self.ref_resolver is not None else self.ref
-        return hasattr(ref, self.symbol)
+        return hasattr(ref, self.attr_name)
 
     def __repr__(self):
         return "UndefinedSymbolHashRule(parent_symbol={parent_symbol}, symbol={symbol})".format(
